@@ -309,7 +309,7 @@ func (g *gen) ctlCase() *vcase {
 		if !ok {
 			continue // a short jump did not fit, try again
 		}
-		return &vcase{script: s, gas: 1 << 20, priced: true, family: "control"}
+		return &vcase{script: s, gas: genGas, priced: true, family: "control"}
 	}
 }
 
@@ -336,7 +336,7 @@ func (g *gen) mutate(c *vcase) *vcase {
 			s[at] = byte(seqOps[g.r.Intn(len(seqOps))])
 		}
 	}
-	return &vcase{script: s, args: c.args, gas: 1 << 20, priced: true, family: c.family + "-mut"}
+	return &vcase{script: s, args: c.args, gas: genGas, priced: true, family: c.family + "-mut"}
 }
 
 // wrapTry embeds the script in TRY_L … ENDTRY_L with a catch block that leaves a marker:
@@ -363,7 +363,7 @@ func (g *gen) randomBytes() *vcase {
 			}
 		}
 	}
-	c := &vcase{script: s, gas: 1 << 20, priced: true, family: "random"}
+	c := &vcase{script: s, gas: genGas, priced: true, family: "random"}
 	k := g.r.Intn(4)
 	for i := 0; i < k; i++ {
 		c.args = append(c.args, seqStartPool[g.r.Intn(len(seqStartPool))])
